@@ -81,7 +81,23 @@ func (m *c15Mon) after(h *H, s *step) {
 
 func hostileCookie(c *sim.Case, name, sid string) string {
 	big := strings.Repeat("A", 65536)
-	switch sim.Pick(c, "cookie", 14) {
+	switch sim.Pick(c, "cookie", 24) {
+	case 14, 15, 16, 17, 18, 19, 20, 21, 22, 23:
+		// grammar: 1-4 pairs, names from {session cookie, other}, values short strings over a hostile alphabet
+		n := 1 + sim.Pick(c, "cookie.n", 4)
+		var parts []string
+		for i := 0; i < n; i++ {
+			nm := name
+			if sim.Bool(c, "cookie.other") {
+				nm = sim.PickStr(c, "cookie.name", "theme", "", "a b", "\"q\"")
+			}
+			val := c.Str("cookie.val", "\"'=;, \\\x00a%\t", 0, 3)
+			if sim.Weighted(c, "cookie.sid", 3, 1) == 1 {
+				val = sid
+			}
+			parts = append(parts, nm+"="+val)
+		}
+		return strings.Join(parts, sim.PickStr(c, "cookie.sep", "; ", ";", " ;  "))
 	case 0:
 		return ""
 	case 1:
@@ -269,20 +285,43 @@ func genTokenBody(c *sim.Case, honest map[string]any) string {
 }
 
 // claim / header type confusion inside a validly signed token
+// claim and header names an implementation might read: JWT registered claims, OIDC Core standard claims and
+// the ones commonly added by providers; plus a drawn arbitrary name.
+var c15ClaimNames = []string{"nonce", "aud", "exp", "iat", "iss", "sub", "nbf", "jti", "azp", "acr", "amr", "auth_time", "at_hash", "c_hash",
+	"sid", "scope", "email", "email_verified", "name", "preferred_username", "groups", "roles", "realm_access", "resource_access", "tid", "hd", "typ", "session_state", "cnf", "events"}
+var c15HeaderNames = []string{"kid", "alg", "typ", "cty", "crit", "jwk", "jku", "x5c", "x5u", "x5t", "x5t#S256", "zip", "enc", "b64"}
+
 func genOddToken(c *sim.Case) (*sim.Behaviour, string) {
-	claim := sim.PickStr(c, "tok.claim", "nonce", "aud", "exp", "iat", "iss", "sub", "nbf", "jti")
-	hdr := sim.PickStr(c, "tok.hdr", "", "", "kid", "alg", "typ", "crit", "jwk", "x5c")
-	val := jsonOdd(c, "tok.val")
-	name := fmt.Sprintf("odd-token(%s/%s=%v)", claim, hdr, val)
+	mode := sim.Weighted(c, "tok.mode", 5, 2, 1)
+	claims := map[string]any{}
+	hdrs := map[string]any{}
+	switch mode {
+	case 0: // one claim (and possibly one header) of unexpected type, everything else honest
+		claims[c15ClaimNames[sim.Pick(c, "tok.claim", len(c15ClaimNames))]] = jsonOdd(c, "tok.val")
+		if sim.Weighted(c, "tok.hdr?", 2, 1) == 1 {
+			hdrs[c15HeaderNames[sim.Pick(c, "tok.hdr", len(c15HeaderNames))]] = jsonOdd(c, "tok.hval")
+		}
+	case 1: // every optional claim of unexpected type at once; the ones the service validates stay honest
+		v := jsonOdd(c, "tok.val")
+		for _, n := range c15ClaimNames {
+			if n != "nonce" && n != "aud" {
+				claims[n] = v
+			}
+		}
+	case 2: // an arbitrary claim name
+		claims[c.Str("tok.name", "abcxyz_", 1, 8)] = jsonOdd(c, "tok.val")
+	}
+	name := fmt.Sprintf("odd-token(claims=%v headers=%v)", claims, hdrs)
 	return &sim.Behaviour{Name: name, Mutate: func(p *sim.IdP, honest string, cl map[string]any, _ *sim.TokenCall) string {
 		cl2 := copyClaims(cl)
-		cl2[claim] = val
-		h := map[string]any{"alg": p.SignKey.DefaultAlg(), "typ": "JWT", "kid": p.SignKey.Kid}
-		if hdr != "" {
-			h[hdr] = val
+		for k, v := range claims {
+			cl2[k] = v
 		}
-		alg := p.SignKey.DefaultAlg()
-		return sim.Compact(h, cl2, p.SignKey, alg)
+		h := map[string]any{"alg": p.SignKey.DefaultAlg(), "typ": "JWT", "kid": p.SignKey.Kid}
+		for k, v := range hdrs {
+			h[k] = v
+		}
+		return sim.Compact(h, cl2, p.SignKey, p.SignKey.DefaultAlg())
 	}}, name
 }
 
